@@ -33,7 +33,7 @@ ASSUMPTIONS = [
 
 TEXT_DTYPES = ["object", "str", "string[python]", "string[pyarrow]", "arrow_string", "arrow_large_string", "mixed_object"]
 CAT_DTYPES = ["category", "category_ordered", "category_unsorted", "category_int", "category_unused", "category_bool"]
-NUM_DTYPES = ["int8", "int16", "int32", "int64", "uint8", "uint16", "uint32", "uint64", "Int64", "float32", "float64", "Float64",
+NUM_DTYPES = ["int8", "int16", "int32", "int64", "uint8", "uint16", "uint32", "uint64", "Int64", "float16", "float32", "float64", "Float64",
               "bool", "boolean", "arrow_int64", "arrow_float64"]
 LEVELS = ["b", "a", "c"]
 VALS = ["b", "a", "c", "a", "b", "c", "a", "a"]
@@ -81,7 +81,7 @@ def make_num(dtype, n, with_null):
         vals = [b % 2 == 0 for b in base]
     else:
         vals = list(base)
-    if with_null and dtype in ("Int64", "Float64", "boolean", "float32", "float64", "arrow_int64", "arrow_float64"):
+    if with_null and dtype in ("Int64", "Float64", "boolean", "float16", "float32", "float64", "arrow_int64", "arrow_float64"):
         vals[1] = None
     if dtype in ("Int64", "Float64", "boolean"):
         return pd.array(vals, dtype=dtype)
@@ -89,7 +89,7 @@ def make_num(dtype, n, with_null):
         return pd.array(vals, dtype=pd.ArrowDtype(pa.int64()))
     if dtype == "arrow_float64":
         return pd.array([None if x is None else float(x) for x in vals], dtype=pd.ArrowDtype(pa.float64()))
-    if dtype in ("float32", "float64"):
+    if dtype in ("float16", "float32", "float64"):
         return np.array([np.nan if x is None else x for x in vals], dtype=dtype)
     return np.array(vals, dtype=dtype)
 
@@ -229,7 +229,7 @@ def judge(case) -> Outcome:
             out.fail("c08.boolean_cells", f"{tag}: indicator columns come back as truth values ({bad}), not numbers")
             return out
     if is_num:
-        keep = [i for i in range(n) if not (with_null and i == 1 and dtype in ("Int64", "Float64", "boolean", "float32", "float64", "arrow_int64", "arrow_float64"))]
+        keep = [i for i in range(n) if not (with_null and i == 1 and dtype in ("Int64", "Float64", "boolean", "float16", "float32", "float64", "arrow_int64", "arrow_float64"))]
     else:
         keep = [i for i in range(n) if vals[i] is not None]
     if is_num:
